@@ -1,4 +1,5 @@
 import BSModel.Model.Reparse
+import BSModel.Proofs.AttrsIdem
 /-! C05 helper lemmas: the normal form `normaliseL` is idempotent ("a second round trip changes nothing") for every
     forest in which no doctype is followed by visible text or stands in a preserve-whitespace context.
 
@@ -348,5 +349,24 @@ theorem normaliseL_idem (p : PCfg) (f : Fmt) (hc : contOK p = true) (h10 : p.asc
   rw [absorb_append, h1]
   simp only [List.append_assoc]
   rw [close_fix p f h10 _ hctx after' _ c' h2]
+
+mutual
+theorem attrStableN_all (p : PCfg) (f : Fmt) (h32 : p.reSpace.contains 32 = true) : ∀ (n : Node), attrStableN p f n = true
+  | .str _ _ => rfl
+  | .tag i ks => by
+    simp only [attrStableN, Bool.and_eq_true, beq_iff_eq]
+    exact ⟨normAttrs_idem p h32 f _ _, attrStableL_all p f h32 ks⟩
+theorem attrStableL_all (p : PCfg) (f : Fmt) (h32 : p.reSpace.contains 32 = true) : ∀ (ns : List Node), attrStableL p f ns = true
+  | [] => rfl
+  | n :: ns => by
+    simp only [attrStableL, Bool.and_eq_true]
+    exact ⟨attrStableN_all p f h32 n, attrStableL_all p f h32 ns⟩
+end
+
+/-- **Idempotence of the normal form**, no hypothesis on the attributes -/
+theorem normaliseL_idem_all (p : PCfg) (f : Fmt) (hc : contOK p = true) (h10 : p.asciiSpaces.contains 10 = true)
+    (h32 : p.reSpace.contains 32 = true) (ds : List Node) (hs : dstableL p (ctxOf p [rootFrame]) false ds = true) :
+    normaliseL p f (normaliseL p f ds) = normaliseL p f ds :=
+  normaliseL_idem p f hc h10 ds hs (attrStableL_all p f h32 ds)
 
 end BS.Render
